@@ -174,7 +174,7 @@ func paramNonNilAtEveryCall(p *core.Prog, fn *ssa.Function, par *ssa.Parameter) 
 	if idx < 0 {
 		return false
 	}
-	callers := p.Callers(fn)
+	callers := p.RealCallers(fn)
 	if len(callers) == 0 {
 		return false
 	}
